@@ -154,4 +154,32 @@ theorem C12_source_make_file_type_map (X : Ext) (split : String → Option (Stri
       · intro e
         simp [indexOf, hX.hpf e.2, entryVal]
 
+/-! ### what the model of the grouping loop guarantees (the content of the `--read-as` documentation) -/
+
+/-- NOTHING IS LOST: the pattern of every `--read-as` option is in the pattern list of its reader string — also when
+    the same reader is named by several options. -/
+theorem C12_readas_every_pattern_kept (split : String → Option (String × String)) (args : List String)
+    (m : Plumb.FileTypeMap) (h : Plumb.makeFileTypeMap split (some args) = some m) (a : String) (ha : a ∈ args)
+    (r p : String) (hs : split a = some (r, p)) : ∃ ps, (r, ps) ∈ m ∧ p ∈ ps :=
+  (has_groupLoop split args [] m h r p).mpr (Or.inr ⟨a, ha, hs⟩)
+
+/-- … hence `DirMode.categorize`'s parameter `mapped` (“`file_type_map(filename) is not None`”) is: the name matches
+    the pattern of SOME `--read-as` option (in any position, for any reader).  Nothing is invented either. -/
+theorem C12_readas_mapped_iff (fnm : String → String → Bool) (split : String → Option (String × String))
+    (args : List String) (m : Plumb.FileTypeMap) (h : Plumb.makeFileTypeMap split (some args) = some m)
+    (name : String) :
+    Plumb.mapped fnm m name = true ↔ ∃ a ∈ args, ∃ r p, split a = some (r, p) ∧ fnm name p = true := by
+  rw [mapped_iff_has]
+  constructor
+  · rintro ⟨r, p, hh, hf⟩
+    rcases (has_groupLoop split args [] m h r p).mp hh with ⟨ps, h1, _⟩ | ⟨a, ha, hs⟩
+    · simp at h1
+    · exact ⟨a, ha, r, p, hs, hf⟩
+  · rintro ⟨a, ha, r, p, hs, hf⟩
+    exact ⟨r, p, (has_groupLoop split args [] m h r p).mpr (Or.inr ⟨a, ha, hs⟩), hf⟩
+
+/-- without `--read-as` nothing is mapped. -/
+theorem C12_readas_absent (fnm : String → String → Bool) (split : String → Option (String × String)) (name : String) :
+    Plumb.makeFileTypeMap split none = some [] ∧ Plumb.mapped fnm [] name = false := ⟨rfl, rfl⟩
+
 end Fc
